@@ -282,6 +282,7 @@ enum Op {
     Update(u64, Patch),
     UpdateMissing(Patch),
     Remove(u64),
+    RemoveLast,
     RemoveMissing,
     Flush,
     SaveExt(u64),
@@ -293,7 +294,7 @@ impl Op {
     fn kind(&self) -> &'static str {
         match self {
             Op::Add(_) => "add", Op::Update(..) => "update", Op::UpdateMissing(_) => "update_missing",
-            Op::Remove(_) => "remove", Op::RemoveMissing => "remove_missing", Op::Flush => "flush",
+            Op::Remove(_) | Op::RemoveLast => "remove", Op::RemoveMissing => "remove_missing", Op::Flush => "flush",
             Op::SaveExt(_) => "save_extension", Op::CompactB(_) => "compact_btree", Op::CompactT(_) => "compact_bm25",
             Op::Reopen(_, false) => "reopen_collection", Op::Reopen(_, true) => "reopen_database",
         }
@@ -362,6 +363,35 @@ impl Gen {
             if !patch_fields(&p).is_empty() { return p; }
         }
     }
+    /// A long unflushed tail: after a flush, `run` consecutive ids that end up without a document (added and
+    /// removed again, or burned by an add the unique index rejects), then an acknowledged add, then a little
+    /// more activity — and no flush.  The acknowledged add is recoverable only by the reopen repair scan.
+    fn hole_workload(&mut self, run: usize, rejected: bool) -> Workload {
+        let mut init = self.ixset();
+        init[0] = true;
+        let mut ops = vec![];
+        for _ in 0..(1 + self.rng.below(3)) { ops.push(Op::Add(self.doc())); }
+        ops.push(Op::Flush);
+        if self.rng.chance(1, 2) { ops.push(Op::Add(self.doc())); }
+        for j in 0..run {
+            if rejected || (j % 5 == 4) {
+                let mut d = self.doc();
+                d.uid = "u1".to_string();
+                ops.push(Op::Add(d));
+            } else {
+                ops.push(Op::Add(self.doc()));
+                ops.push(Op::RemoveLast);
+            }
+        }
+        ops.push(Op::Add(self.doc()));
+        match self.rng.below(4) {
+            0 | 1 => ops.push(Op::Add(self.doc())),
+            2 => { let s = self.rng.next(); ops.push(Op::Update(s, self.patch(false))) }
+            _ => ops.push(Op::SaveExt(self.rng.below(1000))),
+        }
+        Workload { init, ops, bucket: 1024 * 1024 }
+    }
+
     fn workload(&mut self, nops: usize, with_reopen: bool) -> Workload {
         let mut cfg = self.ixset();
         let init = cfg;
@@ -561,7 +591,10 @@ async fn exec_op(env: &Env, sess: &mut Option<Session>, op: &Op, p: &mut Progres
     let coll = s.coll.clone();
     let live: Vec<u64> = p.cur.keys().copied().collect();
     let fail = |p: &mut Progress, inf: Option<Inflight>, e: DBError| -> Exec {
-        if faulty { p.inflight = inf; Exec::Failed(format!("{e:?}")) }
+        let msg = format!("{e:?}");
+        let injected = msg.contains("injected") || msg.contains("Poisoned") || msg.contains("poisoned");
+        // a deterministic rejection (unique violation, missing id) is not a crash, also on a run with a fault armed
+        if faulty && (injected || !expected_rejection(&e)) { p.inflight = inf; Exec::Failed(msg) }
         else if expected_rejection(&e) { p.rejected += 1; if std::env::var("H_DEBUG").is_ok() { eprintln!("rejected: {e:?}"); } Exec::Rejected(format!("{e:?}")) }
         else { Exec::Failed(format!("{e:?}")) }
     };
@@ -595,6 +628,14 @@ async fn exec_op(env: &Env, sess: &mut Option<Session>, op: &Op, p: &mut Progres
         Op::Remove(sel) => {
             if live.is_empty() { return Exec::Done; }
             let id = live[(*sel % live.len() as u64) as usize];
+            let before = p.cur[&id].clone();
+            match coll.remove(id).await {
+                Ok(_) => { p.cur.remove(&id); Exec::Done }
+                Err(e) => fail(p, Some(Inflight { id, before: Some(before), after: None, what: "remove".into() }), e),
+            }
+        }
+        Op::RemoveLast => {
+            let Some(&id) = live.last() else { return Exec::Done; };
             let before = p.cur[&id].clone();
             match coll.remove(id).await {
                 Ok(_) => { p.cur.remove(&id); Exec::Done }
@@ -1008,6 +1049,7 @@ async fn recover_and_judge(env: &Env, p0: &Progress, rixs: IxSet, w: &Workload, 
     };
     let d = dump(&sess.coll, &p.ixs, p).await;
     ctx.out.evals += 1;
+    if std::env::var("H_DUMP").is_ok() { eprintln!("at {at} ids {:?} acked {:?} max_id {} inflight {:?}", d.ids, p.cur.keys().collect::<Vec<_>>(), d.max_id, p.inflight.as_ref().map(|i| (i.id, i.what.clone()))); }
     let f1 = oracle_c01(p, &d);
     let f2 = oracle_c02(&p.ixs, &d);
     let bad1 = !f1.is_empty();
@@ -1086,8 +1128,9 @@ async fn explore(w: &Workload, backend: Backend, plan: &Plan, ctx: &mut Ctx<'_>,
     }
     let phase = rng.below(plan.every_k.max(1));
     let mut crashed_seen = 0u64;
-    for k in 0..total {
-        if plan.every_k > 1 && k % plan.every_k != phase { continue; }
+    // k = total never fires: the process is killed after the last operation returned, without close
+    for k in 0..=total {
+        if plan.every_k > 1 && k % plan.every_k != phase && k != total { continue; }
         if let Some(hk) = dbg_num("H_K") && hk != k { continue; }
         let env = Env::new(backend, w.bucket);
         env.fault.crash_after_mutations(k);
@@ -1109,7 +1152,10 @@ async fn explore(w: &Workload, backend: Backend, plan: &Plan, ctx: &mut Ctx<'_>,
         let e0 = env.restored(&snap).await;
         let _ = open_session(e0.stack(), e0.db_config(), rixs).await.map(|s| s);
         let m = e0.fault.mutation_count();
-        let js: Vec<u64> = if plan.nested_all_j { (0..m).collect() } else { let mut v: Vec<u64> = (0..m).collect(); rng.shuffle(&mut v); v.truncate(3); v };
+        // long unflushed tails (hole workloads) have hundreds of crash points: sample their nested crashes
+        let long = w.ops.len() > 40;
+        if long && crashed_seen % (plan.nested_every * 4) != 0 { continue; }
+        let js: Vec<u64> = if plan.nested_all_j && !long { (0..m).collect() } else { let mut v: Vec<u64> = (0..m).collect(); rng.shuffle(&mut v); v.truncate(3); v };
         for j in js {
             if let Some(hj) = dbg_num("H_J") && hj != j { continue; }
             let e1 = env.restored(&snap).await;
@@ -1149,6 +1195,7 @@ async fn explore(w: &Workload, backend: Backend, plan: &Plan, ctx: &mut Ctx<'_>,
         let phase = rng.below(plan.flaky_every);
         for n in 0..calls {
             if n % plan.flaky_every != phase { continue; }
+            if w.ops.len() > 40 && (n / plan.flaky_every) % 4 != 0 { continue; }
             let env = Env::new(backend, w.bucket);
             env.flaky.arm(n);
             let (p, err, sess) = run_workload(&env, w, ctx, false, false).await;
@@ -1213,13 +1260,17 @@ fn main() {
         flaky_every: num("--flaky-every", 0),
         sentinel_every: num("--sentinel-every", 4),
     });
+    let hole_every = match num("--hole-every", 8) as usize { 0 => 0, n => n.max(3) };
     let quiescent_only = mode == "c02" && a.iter().any(|s| s == "--quiescent-only");
     let mut master = Rng::from_env();
     let mut jobs: Vec<(usize, Workload, Backend, Rng)> = vec![];
     for i in 0..workloads {
         let mut g = Gen { rng: master.fork(), uid_ctr: 0 };
         let with_reopen = i % 4 != 3;
-        let w = g.workload(nops.max(6) - (i % 5), with_reopen);
+        // every 8th workload is a long unflushed tail with a run of holes (lengths below, at and above the
+        // allocation-watermark stride) before an acknowledged add
+        const RUNS: [usize; 8] = [8, 17, 66, 3, 33, 12, 130, 64];
+        let w = if hole_every > 0 && i % hole_every == hole_every - 3 { g.hole_workload(RUNS[(i / hole_every) % RUNS.len()], (i / hole_every) % 2 == 1) } else { g.workload(nops.max(6) - (i % 5), with_reopen) };
         let b = backends[i % backends.len()];
         jobs.push((i, w, b, g.rng.fork()));
     }
